@@ -131,6 +131,15 @@ func failForm(kind string) gen.Val {
 		return L(S("mt"), S("x"))
 	case "macro-built":
 		return L(S("mb"), S("x"))
+	case "macro-template-splice":
+		// the failing template form itself holds an unquote-splicing child
+		return L(S("mts"), S("x"), I(2))
+	case "macro-built-nested":
+		// a form the macro built with list, nested under a positioned template form
+		return L(S("mbn"), S("x"))
+	case "macro-built-symbol-nested":
+		// a position-less symbol the macro built, nested under a positioned template form
+		return L(S("mbs"), S("x"))
 	case "arg-of-call":
 		return L(S("list"), I(1), L(S("car"), S("x")), I(3))
 	default:
@@ -138,7 +147,8 @@ func failForm(kind string) gen.Val {
 	}
 }
 
-var failKinds = []string{"unbound", "unbound-head", "error", "type", "type2", "arity", "arity0", "user-arity", "macro-template", "macro-built", "arg-of-call", "mod-zero"}
+var failKinds = []string{"unbound", "unbound-head", "error", "type", "type2", "arity", "arity0", "user-arity", "macro-template", "macro-built", "arg-of-call", "mod-zero",
+	"macro-template-splice", "macro-built-nested", "macro-built-symbol-nested"}
 var wrapKinds = []string{"let", "let*", "cond", "dotimes", "handler-bind", "progn", "if", "plus-arg", "map-callback", "funcall", "apply", "labels", "flet", "and", "or-last", "thread-first", "foldl"}
 
 func wrap(kind string, inner gen.Val) gen.Val {
@@ -192,6 +202,11 @@ func genCase() *rapid.Generator[Case] {
 			L(S("defun"), S("two-args"), L(S("a"), S("b")), L(S("list"), S("a"), S("b"))),
 			L(S("defmacro"), S("mt"), L(S("a")), L(S("quasiquote"), L(S("progn"), L(S("list"), I(0)), L(S("car"), L(S("unquote"), S("a")))))),
 			L(S("defmacro"), S("mb"), L(S("a")), L(S("list"), L(S("car"), QL(S("car"))), S("a"))),
+			L(S("defmacro"), S("mts"), L(S("&rest"), S("xs")), L(S("quasiquote"), L(S("progn"), L(S("list"), I(0)), L(S("mod"), L(S("unquote-splicing"), S("xs")), I(0))))),
+			// the built form comes from an inner macro called from a template:
+			// it takes the inner macro's call site, i.e. the template position
+			L(S("defmacro"), S("mbn"), L(S("a")), L(S("quasiquote"), L(S("progn"), L(S("list"), I(0)), L(S("mb"), L(S("unquote"), S("a")))))),
+			L(S("defmacro"), S("mbs"), L(S("a")), L(S("quasiquote"), L(S("progn"), L(S("list"), L(S("unquote"), S("a"))), L(S("list"), L(S("unquote"), L(S("gensym"))))))),
 		)
 		// the failing form sits in the innermost function, under wrappers
 		body := failForm(c.Kind)
